@@ -369,11 +369,17 @@ def check_authorize(ctx):
                 ok = all(bound.get(nme) == nme for nme in names) and (
                     not va or '*' + va in pos) and (
                     not kwn or kws.get(None) == kwn)
+                # extra positionals must come after every named parameter,
+                # else a keyword-forwarded flag collides with them
+                if ok and va and pos.index('*' + va) < len(names):
+                    ok = False
             ctx.ob('C07.AUTHORIZE', ok, W, auth.qual,
                    'registered -> ' + p.outcome.text(),
                    'forwards every argument to enforce in the same role'
                    if ok else 'authorize does not forward all its arguments '
-                   'to enforce unchanged')
+                   'to enforce unchanged and in enforce\'s positional order '
+                   '(extra positional arguments for the exception class '
+                   'must follow do_raise and exc)')
     ctx.floor('C07.AUTHORIZE', n_reg, 1, 'unregistered paths')
     ctx.floor('C07.AUTHORIZE', n_fw, 1, 'forwarding paths')
 
